@@ -58,6 +58,7 @@ type RunConfig struct {
 	Faults      []string       `json:"faults,omitempty"`
 	Oracles     []string       `json:"oracles,omitempty"` // property ids whose oracles are on
 	FinalStop   bool           `json:"final_stop"`        // the action list ends with an explicit stop
+	PSFirst     int            `json:"ps_first_pct,omitempty"` // when both netlink clients wait: chance (percent) that the periodic one is served first (0 = 50)
 	NoPeek      bool           `json:"no_peek,omitempty"` // never read go-upf's internal state (race-detector runs)
 }
 
@@ -130,6 +131,8 @@ type Sim struct {
 	actNo int
 
 	hbSeq uint32
+	armed []KRepItem
+	tearing bool
 	c11carriers map[string]bool
 	statesSeen map[string]bool
 	faultHit   map[uint64]bool
@@ -315,8 +318,16 @@ func (s *Sim) pendingReports() int {
 // own nanosecond residue (all configured durations are whole milliseconds).
 func (s *Sim) bump() { time.Sleep(time.Nanosecond) }
 
+// schedPick chooses among the sockets with a request pending (names sorted: main, ps).
 func (s *Sim) schedPick(n int) int {
-	return int(s.hash("sched", uint64(s.stepNo), uint64(s.kern.nReq)) % uint64(n))
+	h := s.hash("sched", uint64(s.stepNo), uint64(s.kern.nReq))
+	if n == 2 && s.cfg.PSFirst > 0 {
+		if int(h%100) < s.cfg.PSFirst {
+			return 1
+		}
+		return 0
+	}
+	return int(h % uint64(n))
 }
 
 // settle runs go-upf to quiescence, answering data-plane requests one at a time.
@@ -325,7 +336,19 @@ func (s *Sim) settle() {
 		synctest.Wait()
 		r := s.kern.takePending(s.schedPick)
 		if r != nil {
-			if s.cfg.KernLatency > 0 && (r.Op == "add-create" || r.Op == "add-update" || r.Op == "del" || r.Op == "multi" || r.Op == "report" || r.Op == "get") {
+			if err := s.kern.decode(r); err != nil {
+				s.harnessFail("simkernel cannot decode a request from go-upf: %v (% x)", err, r.Raw)
+			}
+			if s.armed != nil && r.Conn == "main" && (r.Op == "del" || r.Op == "add-create" || r.Op == "add-update") {
+				// a burst of kernel notifications lands while the event loop waits for
+				// the reply to this very request
+				items := s.armed
+				s.armed = nil
+				s.fired("dp.burst", 1)
+				s.doKRepNoSettle(items)
+				synctest.Wait()
+			}
+			if s.cfg.KernLatency > 0 && !s.tearing && (r.Op == "add-create" || r.Op == "add-update" || r.Op == "del" || r.Op == "multi" || r.Op == "report" || r.Op == "get") {
 				s.fired("dp.latency", 1)
 				time.Sleep(time.Duration(s.cfg.KernLatency)*time.Millisecond + time.Nanosecond)
 				synctest.Wait()
@@ -550,14 +573,29 @@ func (s *Sim) shutdownStuck(what string) {
 // bubbleDump returns the stacks of go-upf goroutines (everything but the caller and
 // runtime/testing helpers).
 func bubbleDump() string {
-	buf := make([]byte, 1<<20)
+	buf := make([]byte, 4<<20)
 	n := runtime.Stack(buf, true)
+	gs := strings.Split(string(buf[:n]), "\n\n")
+	// only the current bubble: earlier (wedged) runs of this process left goroutines behind
+	mine := ""
+	for _, g := range gs {
+		if strings.Contains(g, "verifsim.bubbleDump") {
+			if i := strings.Index(g, "synctest bubble "); i >= 0 {
+				j := strings.IndexAny(g[i:], "]\n")
+				mine = g[i : i+j]
+			}
+		}
+	}
 	var keep []string
-	for _, g := range strings.Split(string(buf[:n]), "\n\n") {
-		if !strings.Contains(g, "synctest bubble") {
+	for _, g := range gs {
+		hdr := g
+		if i := strings.Index(g, "\n"); i >= 0 {
+			hdr = g[:i]
+		}
+		if mine == "" || !strings.Contains(hdr, mine+"]") {
 			continue
 		}
-		if strings.Contains(g, "verifsim.bubbleDump") {
+		if strings.Contains(g, "verifsim.bubbleDump") || strings.Contains(g, "testing/synctest.testingSynctestTest") || strings.Contains(g, "internal/synctest.Run") {
 			continue
 		}
 		keep = append(keep, g)
@@ -677,6 +715,8 @@ func (s *Sim) teardown() {
 	if s.srv == nil {
 		return
 	}
+	s.tearing = true
+	s.armed = nil
 	// drop what the simulator still holds so that nothing is delivered during shutdown
 	s.rmu.Lock()
 	s.pendRep = nil
